@@ -73,8 +73,22 @@ def unit(model, sizes, vec, limit):
             order_ok = z3.And([vals[i].t <= vals[i + 1].t for i in range(n - 1)])
             ctx.oblige(f"C02/{model}/rate/canary-rank-order", order_ok, kind="canary",
                        meta={"replay": lambda md: mk(md, "canary"), "fn": fn})
-    explore(ctx, run)
+    budget = 20000 if len(sizes) <= 4 else 200000
+    over = None
+    try:
+        explore(ctx, run, max_paths=budget)
+    except Exception as e:  # noqa: BLE001
+        if "paths" not in str(e):
+            raise
+        over = str(e)
     recs = _merge_canaries(settle(ctx.all_obls, mode="U"))
+    if over:
+        # a change that multiplies the comparisons of the sort (e.g. sorting players by a symbolic value) ends
+        # undecided instead of running for an hour; the replay search settles it
+        recs.append(driver.rec(f"C02/{model}/rate/path-budget@{shape}", "open", "explorer", 0, fn=fn, shape=shape,
+                               note=f"{over} (the unchanged tree needs a few hundred)", replay={"kind": "c02_rate", "model": model, "limit": limit,
+                                                                                              "game": [[[{"v": [25 + 3 * i + j, 1], "k": "float"}, {"v": [8 - j, 1], "k": "float"}] for j in range(k)] for i, k in enumerate(sizes)],
+                                                                                              "params": None, "clause": None}))
     recs.append(driver.rec(f"C02/{model}/rate/paths@{shape}", "discharged" if count["paths"] >= 1 else "open", "explorer", 0,
                            kind="vacuity", note=f"{count['paths']} paths"))
     return recs
